@@ -245,14 +245,14 @@ def _hook_factory(ph, spec):
     return f
 
 
-def make_mw_type(key, unique, reorderable, funcs, wsgi=False, base=None, hooks='method', static_name=None, cls_name=None):
+def make_mw_type(key, unique, reorderable, funcs, wsgi=False, base=None, hooks='method', static_name=None, cls_name=None, field_eq=False):
     """One class object per type key: Middleware equality is type equality.
 
     funcs: {'request'|'endpoint'|'render': {'req':[], 'opt':[], 'kwreq':[], 'kwopt':[], 'provides':[]}}
     base:  another class made here (the new type is a SUBCLASS of it -- still a different type)
     hooks: 'method' (functions on the class) | 'closure' (plain functions set on the instance in __init__)
            | 'static' (staticmethods: every instance hands out the SAME function object; layer name = static_name)"""
-    ck = (key, unique, reorderable, repr(sorted((k, sorted(v.items())) for k, v in funcs.items())), id(base), hooks, static_name, cls_name)
+    ck = (key, unique, reorderable, repr(sorted((k, sorted(v.items())) for k, v in funcs.items())), id(base), hooks, static_name, cls_name, field_eq)
     if ck in _TYPE_CACHE:
         return _TYPE_CACHE[ck]
     attrs = {'unique': unique, 'reorderable': reorderable}
@@ -281,6 +281,11 @@ def make_mw_type(key, unique, reorderable, funcs, wsgi=False, base=None, hooks='
         return '<simmw %s>' % self._sim_name
     attrs['__init__'] = __init__
     attrs['__repr__'] = __repr__
+    if field_eq:
+        # a middleware written as a value class (attrs / dataclass style): equality compares the FIELDS
+        attrs['__eq__'] = lambda self, other: type(self) is type(other) and self._sim_name == other._sim_name
+        attrs['__ne__'] = lambda self, other: not (type(self) is type(other) and self._sim_name == other._sim_name)
+        attrs['__hash__'] = lambda self: hash(self._sim_name)
     # cls_name: the class's __name__ (two DIFFERENT types may well be called the same, in different modules)
     cls = type(str(cls_name or key), (base or Middleware,), attrs)
     if len(_TYPE_CACHE) > 4000:
